@@ -54,6 +54,21 @@ def eulerFn (m : FVMesh K) (fixed : Nat → Bool) (U : Nat → Cx K) (psi : Nat 
     some (fun r => ((eulerSite m fixed U psi a mu eps gamma u dt r).getD (psi r, a r)).1)
   else none
 
+/-- `psi[terminal sites] = terminal_psi; abs_sq_psi[terminal sites] = abs(terminal_psi)**2` — the
+    re-imposition of the Dirichlet value after the Euler step (solver.py `update`); `tp = none`
+    models `terminal_psi = None` (nothing is pinned). -/
+def pinSite (fixed : Nat → Bool) (tp : Option (Cx K)) (r : Nat) (px : Cx K × K) : Cx K × K :=
+  match tp with
+  | none => px
+  | some v => if fixed r then (v, absSq v) else px
+
+/-- the Euler step followed by the re-imposition of the terminal value -/
+def eulerPinnedFn (m : FVMesh K) (fixed : Nat → Bool) (tp : Option (Cx K)) (U : Nat → Cx K)
+    (psi : Nat → Cx K) (a mu eps : Nat → K) (gamma u dt : K) : Option (Nat → Cx K × K) :=
+  if (List.range m.n).all (fun r => (eulerSite m fixed U psi a mu eps gamma u dt r).isSome) then
+    some (fun r => pinSite fixed tp r ((eulerSite m fixed U psi a mu eps gamma u dt r).getD (psi r, a r)))
+  else none
+
 /-- solver state between steps (static applied field, no screening) -/
 structure MState (K : Type) where
   psi : Nat → Cx K
